@@ -307,6 +307,23 @@ def run(ctx):
                 break
             else:
                 traces.append(t)
+        # the smallest studies: one cell line, one treatment, a one-entry single-agent table (arrays of ONE element are still arrays)
+        for kind in ("combo", "inter"):
+            g = np.random.default_rng(ctx.seed + 5)
+            if kind == "combo":
+                th = SparseDrugComboMCMCSample(W=g.normal(size=(1, 1)), W0=g.normal(size=1), V2=g.normal(size=(1, 1)), V1=g.normal(size=(1, 1)), V0=g.normal(size=1),
+                                               alpha=0.25, precision=2.0)
+            else:
+                th = SparseDrugComboInteractionMCMCSample(W=g.normal(size=(1, 1)), V2=g.normal(size=(1, 1)), precision=2.0, single_effect_lookup={(0, 0): 0.5})
+            hh = ThetaHolder(n_thetas=1)
+            hh.add_theta(th)
+            fn1 = os.path.join(tmp, "tiny_%s.h5" % kind)
+            st, r_ = outcome(hh.save_h5, fn1)
+            st2, back = outcome(ThetaHolder.load_h5, fn1) if st == "ok" else (st, r_)
+            ctx.evaluations += 1
+            if st2 != "ok" or len(back.thetas) != 1 or digest(back.thetas[0]) != digest(th):
+                ctx.violation("a collection with one sample of a one-cell-line, one-treatment %s model does not reload unchanged: %s" % (
+                    kind, back if st2 != "ok" else "parameter values / shapes differ"), {"kind": "tiny", "model": kind})
         ctx.sample({"chains": pick[0]})
         bad = validate(ctx, "TraceThetaStore", traces, decide=None, next_="TNext", init="TInit",
                        constants={"Model": "ops", "MaxCap": 99, "MaxDepth": 99, "Sizes": {1}, "MaxChains": 3, "Export": False})
